@@ -1620,6 +1620,13 @@ class C14Run(OnionRun):
         v, kf, i = c['version'], c['keyform'], c['idx']
         blob = RSA_KEYS[USER_RSA[i]][0] if v == 2 else USER_V3[i]
         prefix = 'RSA1024:' if v == 2 else 'ED25519-V3:'
+        if v == 3 and 'v3lead' not in c:
+            # a key blob may begin with any base64 characters - also ones that occur in "ED25519-V3"
+            c['v3lead'] = self.ch.pick(['ED25', 'D3V9', '25aW', 'V3V3', '9', 'E'], 'v3lead') if self.ch.chance(1, 3, 'v3bloblead') else ''
+            if c['v3lead']:
+                self.sim.probe('v3-key-blob-begins-with-characters-of-its-type-name')
+        if v == 3:
+            blob = c['v3lead'] + blob[len(c['v3lead']):]
         if kf == 'none':
             return None, ('NEW', 'BEST' if v == 2 else 'ED25519-V3')
         if kf == 'discard':
